@@ -92,6 +92,54 @@ pub const JUNK: [&str; 28] = [
 /// Tails appended to a card spelling; by C12 the token is still that card.
 pub const TAILS: [&str; 10] = ["", "x", "♠", "0", "ss", "!", "-highlighted", "_0123456789abcdef0123456789abcdef", "♠♥♦♣♤♡♢♧♠♥♦♣♤♡♢♧♠♥♦♣", "………………………………………………………………………………………………………………………………………………………………………………………………………………………………………………………………………………………………………………………………………………"];
 
+/// Characters beyond the hand-picked tables, so that the text alphabet is not a closed list of
+/// "interesting" strings: every ASCII character that is not whitespace (NUL and the other control
+/// characters, DEL, all punctuation, digits and letters) and a selection of non-ASCII ones that are
+/// not White_Space either (C1 controls, soft hyphen, combining mark, zero-width and bidi marks,
+/// word joiner, BOM, replacement character, variation selector, private use, a playing-card code
+/// point, blank-looking letters, the last scalar value).
+const EXTRA_CHARS: [char; 26] = [
+    '\u{80}', '\u{84}', '\u{86}', '\u{9F}', '\u{A1}', '\u{AD}', '\u{300}', '\u{61C}', '\u{180E}', '\u{200B}', '\u{200C}', '\u{200D}', '\u{200E}', '\u{200F}', '\u{2060}', '\u{FEFF}', '\u{FFFD}',
+    '\u{FE0F}', '\u{E000}', '\u{1F0A1}', '\u{10FFFF}', '\u{2800}', '\u{3164}', '\u{FFA0}', '\u{1D159}', '\u{E0020}',
+];
+pub const EXT_CHARS: usize = 122 + 26;
+pub fn ext_char(i: usize) -> char {
+    let i = i % EXT_CHARS;
+    if i < 122 {
+        // the i-th ASCII character that is not whitespace
+        (0u8..128).filter(|b| !matches!(b, 9..=13 | 32)).nth(i).unwrap() as char
+    } else {
+        EXTRA_CHARS[i - 122]
+    }
+}
+/// Tail for code `t`: the entries of `TAILS`, then one extended character, then two.
+pub fn tail_str(t: u8) -> String {
+    let t = t as usize;
+    if t == 255 {
+        // one very long tail: the next token starts beyond 64 KiB (a few tokens, so that a
+        // failing text stays cheap to minimise)
+        "x".repeat(70_000)
+    } else if t < TAILS.len() {
+        TAILS[t].to_string()
+    } else if t < TAILS.len() + EXT_CHARS {
+        ext_char(t - TAILS.len()).to_string()
+    } else {
+        let k = t - TAILS.len() - EXT_CHARS;
+        [ext_char(k), ext_char(k * 7 + 1)].iter().collect()
+    }
+}
+/// Junk token for code `j`: the entries of `JUNK`, then a single extended character (one
+/// character is never a card, whatever it is).
+pub fn junk_str(j: u8) -> String {
+    let j = j as usize % JUNK_CODES;
+    if j < JUNK.len() {
+        JUNK[j].to_string()
+    } else {
+        ext_char(j - JUNK.len()).to_string()
+    }
+}
+pub const JUNK_CODES: usize = 28 + EXT_CHARS;
+
 /// Every character with the Unicode White_Space property (what Rust's `char::is_whitespace` /
 /// `split_whitespace` mean by whitespace) occurs as a separator. Entries 0..7 consist of ASCII
 /// whitespace only (space, two spaces, TAB, LF, " \t ", CR LF, FF, lone CR); entries 8.. are the
